@@ -2231,3 +2231,11 @@ V(id='c02-sum-window-two-prec', prop='C02', file='mpmath/libmp/libmpf.py',
   old="    max_extra_prec = prec*4 or 1000000  # XXX", new="    max_extra_prec = prec*2 or 1000000  # XXX", expect='fire:U-R1:mpf_sum')
 V(id='c02-benign-sum-window-wider', prop='C02', file='mpmath/libmp/libmpf.py',
   old="    max_extra_prec = prec*4 or 1000000  # XXX", new="    max_extra_prec = 8*prec or 1000000  # XXX", expect='silent')
+
+# ---- C15 C-R14t: rectangle functions inherit the unwidened endpoints of the real interval functions ----
+V(id='c15-new-rectangle-function-on-mpi-exp', prop='C15', file='mpmath/libmp/libmpi.py',
+  old="def mpci_cos(x, prec):", new="def mpci_expm(z, prec):\n    a, b = z\n    return mpi_exp(mpi_neg(a), prec), mpi_zero\n\ndef mpci_cos(x, prec):",
+  expect='fire:C-R14t:mpci_expm')
+V(id='c15-abs-through-log', prop='C15', file='mpmath/libmp/libmpi.py',
+  old="def mpci_abs(x, prec):\n", new="def mpci_abs(x, prec):\n    if x is None:\n        return mpi_exp(mpi_log(x[0], prec), prec)\n",
+  expect='fire:C-R14t:mpci_abs')
